@@ -74,14 +74,15 @@ def check_dir(acc, proj, v, stratum):
         acc.outcome((f, round(q[0], 2), round(q[1], 2)))
 
 
-def check_plane(acc, proj, x, y, f, stratum):
+def check_plane(acc, proj, x, y, f, stratum, as_list=False):
     acc.n['evaluations'] += 1
     acc.strata[stratum] += 1
-    case = {'kind': 'plane', 'xy': [x, y], 'face': f}
-    k = f'c13:plane:{x!r},{y!r}:f{f}'
+    case = {'kind': 'plane', 'xy': [x, y], 'face': f, 'as_list': as_list}
+    k = f'c13:plane:{x!r},{y!r}:f{f}' + (':list' if as_list else '')
     try:
-        s = proj.inverse((x, y), f)
-        q = proj.forward(s, f)
+        # the second pass hands the coordinates over as lists (vectors are plain sequences in this code base: vec2/vec3 helpers return lists)
+        s = proj.inverse([x, y] if as_list else (x, y), f)
+        q = proj.forward(list(s) if as_list else s, f)
     except Exception as e:
         acc.violation(k + ':raises', f'inverse/forward raised {type(e).__name__}: {e} for face point {(x, y)!r} on face {f}', case)
         return
@@ -228,7 +229,7 @@ def work_plane(task):
     for st, x, y in pts:
         check_plane(acc, proj, x, y, f, 'plane_' + st)
     for st, x, y in reversed(pts[::5]):
-        check_plane(acc, proj, x, y, f, 'plane_warm')
+        check_plane(acc, proj, x, y, f, 'plane_warm', as_list=True)
     return acc
 
 
@@ -307,5 +308,5 @@ def replay(case):
     if case['kind'] == 'dir':
         check_dir(acc, Proj(), tuple(case['v']), 'replay')
     else:
-        check_plane(acc, Proj(), case['xy'][0], case['xy'][1], case['face'], 'replay')
+        check_plane(acc, Proj(), case['xy'][0], case['xy'][1], case['face'], 'replay', as_list=bool(case.get('as_list')))
     return [(k, w) for k, w, _ in acc.violations]
